@@ -17,7 +17,9 @@ def engine_for(prop):
 
 def replay(prop, path):
     case = jload_file(path)
-    eng = importlib.import_module("vt.engines." + case.get("engine", None) or engine_for(prop).__name__)
+    from . import props as P
+
+    eng = importlib.import_module("vt.engines." + (case.get("engine") or P.PROPS[prop]["engine"]))
     return eng.replay(prop, case)
 
 
